@@ -4,3 +4,5 @@ import Driver.SSemDrv
 import Driver.SchedDrv
 import Driver.Main
 import Driver.RwDrv
+import Driver.SndDrv
+import Driver.SharedDrv
